@@ -14,15 +14,20 @@ SHARD = 40
 LEVEL_TEXT = ("Coq theorems over an executable model of the haplotype-block code that is generic in the number type of the genetic "
               "positions (instances: binary64 as executed, bit exact incl. numpy.linspace's operation order; exact rationals): "
               "greedy apportionment = one count per chromosome, each >= 1, summing to the requested total (all inputs, all number types); "
-              "on sorted chromosomes tiling the marker array every marker gets exactly one label inside its chromosome's label range and "
-              "labels are non-decreasing — proved for any total preorder and any boundary list with proper end points, discharged "
-              "unconditionally for Q and, via Flocq, for binary64 under a decidable hypothesis that every shard evaluates; haplobin_bounds is a "
-              "run-length encoding (partition into non-empty runs, decode = labels, adjacent runs differ); block values over any partition add up "
-              "to the copy's additive value; OHV/OPV = ploidy * sum over blocks of the best designated copy (upper bound, attained), >= every "
-              "block-boundary recombinant, for every cross of the (proved valid) cross map. The clauses 'exactly the requested total' and "
-              "'finite for every valid input' are REFUTED (an equal-width bin can lose all markers; witness evaluated in Coq and reproduced on "
-              "the implementation) and proved under the guard 'as many runs as requested blocks', itself proved from 'every label is carried by "
-              "a marker'. The model is evaluated inside Coq (vm_compute) against the implementation's outputs on generated layouts.")
+              "on sorted chromosomes tiling the marker array every marker gets exactly one label inside its chromosome's label range, "
+              "labels are non-decreasing and, when no chromosome has fewer markers than blocks, every requested label is used — proved for "
+              "any total preorder and any boundary list with proper end points, discharged unconditionally for Q and, via Flocq, for "
+              "binary64 under a decidable hypothesis that every shard evaluates; the clauses 'exactly the requested total' and 'finite for "
+              "every valid input' hold at FULL strength for every number type (whenever every marker is labelled the labels are exactly "
+              "0..nhaploblk-1 and haplobin_bounds yields exactly nhaploblk runs; whenever haplomat/_calc_haplomat succeeds every entry is "
+              "written and block values add up to the copy's additive value; the call does succeed on every valid input over Q and, under "
+              "the decidable hypothesis, in binary64) — this rests on the repair pass of haplobin (defect C18-empty-bin, repaired), which is "
+              "also proved to return exactly the former equal-width labels whenever no equal-width bin is empty; the FORMER code is kept in "
+              "Coq as a regression witness (old_* refuted theorems); haplobin_bounds is a run-length encoding (partition into non-empty "
+              "runs, decode = labels, adjacent runs differ); block values over any partition add up to the copy's additive value; OHV/OPV = "
+              "ploidy * sum over blocks of the best designated copy (upper bound, attained), >= every block-boundary recombinant, for every "
+              "cross of the (proved valid) cross map of every problem that is built. The model is evaluated inside Coq (vm_compute) against "
+              "the implementation's outputs on generated layouts.")
 LEVEL_NOTE = ("trusted: Coq kernel + vm_compute, PrimFloat primitives + FloatAxioms specs, classical reals via Flocq (binary64 order only); "
               "numpy.empty is instrumented by the driver to return NaN/-1 filled arrays so that never-written entries are observable (modelled "
               "as None); block values, OHV/OPV sums are compared as exact rationals on dyadic grids (BLAS/numpy summation order not modelled); "
@@ -33,9 +38,9 @@ TECHNIQUE = "Coq proof over an executable model (generic order; PrimFloat/Flocq 
 RULE = ("case = (kind helpers|haplomat|ohv{Subset,Real,Integer,Binary via the selection protocols}|opv|gb, marker layout = chromosome "
         "lengths + genetic positions, requested block total, genotypes, effects, parent tuples / selections, chunk size); layouts from one "
         "PRNG: per chromosome one of even grid (markers exactly on bin boundaries), random grid with duplicates, cluster + far marker (empty "
-        "equal-width bin), all-equal/duplicated positions, single marker, off-grid floats (j/7, j/3, random) where linspace rounding decides; "
+        "equal-width bin: the repair pass of haplobin moves markers), all-equal/duplicated positions, single marker, off-grid floats (j/7, j/3, random) where linspace rounding decides; "
         "1-4 chromosomes, totals from #chr to #markers plus totals below #chr and above #markers, explicit per-chromosome counts, a few "
-        "unsorted layouts; non-trivial = >= 3 markers, >= 2 blocks requested, >= 2 labels used and every equal-width bin non-empty; "
+        "unsorted layouts; non-trivial = >= 3 markers, >= 2 blocks requested, >= 2 labels used; "
         "distinct by SHA-256 of the case")
 TRUSTED = ["numpy.empty instrumented (driver only) so that unwritten entries are visible as NaN / -1",
            "binary64 sums of 0/1 genotypes times effects k/2^8 (|k/2^8| <= 16) are exact: compared as exact rationals",
@@ -45,7 +50,6 @@ TRUSTED = ["numpy.empty instrumented (driver only) so that unwritten entries are
 ASSUMPTIONS = ["genetic positions sorted within chromosomes, chromosome groups tile 0..p (as group_vrnt() produces)",
                "alleles in {0,1} (int8), effects finite", "fewer than 8 chromosomes when positions are off the dyadic grid"]
 
-FINDING = "C18-empty-bin"
 ERRMAP = {"ValueError": "EValue", "RuntimeError": "EOther", "IndexError": "EIndex", "TypeError": "EType"}
 FMT_BUG = True   # nhaploblk_chrom: "... (nchr = {1})".format(nchr) raises IndexError instead of the intended ValueError
 
@@ -162,7 +166,7 @@ WITNESS = {"kind": "haplomat", "pos": [0.0, 1 / 64, 2 / 64, 3 / 64, 1.0], "clen"
 
 def gen_cases(rng, tier):
     cases = []
-    # fixed corner cases: the baseline fixture, the witness of the empty-bin defect, boundary ties, single markers
+    # fixed corner cases: the baseline fixture, the witness of the (repaired) empty-bin defect, boundary ties, single markers
     fix = {"kind": "helpers", "nhap": 5, "clen": [7, 4, 6], "styles": ["fixture"] * 3,
            "pos": [0.10, 1.35, 1.56, 2.10, 2.15, 2.72, 3.04, -0.49, -0.06, 0.59, 0.81, -0.18, -0.04, 0.24, 0.25, 1.04, 1.63]}
     cases.append(fix)
@@ -175,6 +179,20 @@ def gen_cases(rng, tier):
     cases.append({"kind": "helpers", "nhap": 6, "clen": [7], "styles": ["frac"], "pos": [j / 6 for j in range(7)]})
     cases.append({"kind": "helpers", "nhap": 7, "clen": [8], "styles": ["frac"], "pos": [j / 7 for j in range(8)]})
     cases.append({"kind": "helpers", "nhap": 5, "clen": [4, 4], "styles": ["even", "even"], "pos": [0.0, 1.0, 2.0, 3.0, 0.0, 1.0, 2.0, 3.0]})
+    # empty equal-width bins: jump at the start, in the middle, several empty bins, zero-length chromosome, second chromosome
+    cases.append({"kind": "helpers", "nhap": 3, "clen": [5], "styles": ["cluster"], "pos": [0.0, 1.0 - 3 / 64, 1.0 - 2 / 64, 1.0 - 1 / 64, 1.0]})
+    cases.append({"kind": "helpers", "nhap": 5, "clen": [6], "styles": ["cluster"], "pos": [0.0, 1 / 64, 2 / 64, 3 / 64, 3 / 64, 64.0]})
+    cases.append({"kind": "helpers", "nhap": 6, "clen": [6], "styles": ["cluster"], "pos": [0.0, 0.0, 1 / 64, 32.0, 64.0, 64.0]})
+    cases.append({"kind": "helpers", "nhap": 5, "clen": [4, 3], "styles": ["dup", "dup"], "pos": [1.0, 1.0, 1.0, 1.0, 5.0, 5.0, 5.0], "nblk": [3, 2]})
+    cases.append({"kind": "helpers", "nhap": 5, "clen": [2, 5], "styles": ["even", "cluster"], "pos": [0.0, 1.0, 0.0, 1 / 64, 2 / 64, 3 / 64, 1.0], "nblk": [1, 4]})
+    cases.append({"kind": "helpers", "nhap": 5, "clen": [2, 2], "styles": ["even", "even"], "pos": [0.0, 1.0, 0.0, 1.0], "nblk": [4, 1]})
+    # invalid (unsorted) layouts in which every marker is labelled but labels fall: the pass never lets a label fall
+    cases.append({"kind": "helpers", "nhap": 3, "clen": [5], "styles": ["unsorted"], "pos": [0.0, 1.5, 0.5, 3.0, 3.0], "unsorted": True})
+    cases.append({"kind": "helpers", "nhap": 5, "clen": [2, 5], "styles": ["even", "unsorted"], "pos": [0.0, 1.0, 0.0, 2.5, 1.5, 0.5, 3.0], "unsorted": True})
+    w2 = dict(WITNESS); w2["kind"] = "opv"; w2["x"] = [[0, 1], [1], [0, 0]]
+    cases.append(w2)
+    w3 = dict(WITNESS); w3.update({"kind": "ohv", "cls": "Subset", "nparent": 2, "uniq": True, "mem": None, "ncross": 1, "x": [[0], [0]]})
+    cases.append(w3)
     N = {"helpers": 150, "haplomat": 40, "ohv": 60, "opv": 30, "gb": 25} if tier == "quick" else \
         {"helpers": 5000, "haplomat": 1200, "ohv": 2000, "opv": 900, "gb": 700}
     for kind, n in N.items():
@@ -344,11 +362,19 @@ def emit_case(case, out):
             parts.append("res_eqb natl_eqb (nhaploblk_chrom qops %s %s %s %s) %s" % (nat(nhap), E.lst(pos, E.q), ST, SP, NB))
     if use is not None:
         U = E.lst(use, nat)
-        parts.append("list_eqb (opt_eqb Nat.eqb) (haplobin fops %s %s %s %s) %s" % (U, GP, ST, SP, E.lst(out["hbin"], _onat)))
+        if case.get("unsorted"):
+            # invalid layout: a marker may stay unlabelled; that label and the later ones of the chromosome then depend on
+            # what numpy.empty found (model: None) and are not compared
+            HB = E.lst([max(x, 0) for x in out["hbin"]], nat)
+            cmp_ = "lab_agree (haplobin %s %s %s %s %s) %s"
+        else:
+            HB = E.lst(out["hbin"], _onat)
+            cmp_ = "list_eqb (opt_eqb Nat.eqb) (haplobin %s %s %s %s %s) %s"
+        parts.append(cmp_ % ("fops", U, GP, ST, SP, HB))
         if not case.get("unsorted"):                               # the hypothesis of the float-instance theorems, checked per case
             parts.append("lin_hyp_f %s %s" % (U, E.lst([pos[a:b] for a, b in zip(st, sp)], lambda c: E.lst(c, fh))))
         if all(_linspace_exact(pos[a], pos[b - 1], k) for k, a, b in zip(use, st, sp)):
-            parts.append("list_eqb (opt_eqb Nat.eqb) (haplobin qops %s %s %s %s) %s" % (U, E.lst(pos, E.q), ST, SP, E.lst(out["hbin"], _onat)))
+            parts.append(cmp_ % ("qops", U, E.lst(pos, E.q), ST, SP, HB))
         if all(x >= 0 for x in out["hbin"]):
             b = out["bounds"]
             parts.append("res_eqb bounds_eqb (haplobin_bounds %s) (Ok (%s, %s, %s))" % (E.lst(out["hbin"], nat), E.lst(b[0], nat), E.lst(b[1], nat), E.lst(b[2], nat)))
@@ -392,7 +418,7 @@ def emit_case(case, out):
 
 # ------------------------------------------------------------------ independent predicate
 def _ref_labels(pos, st, sp, nblk):
-    """the property's definition: equal-width bins over each chromosome's span, closed at both ends, the later bin wins a tie"""
+    """equal-width bins over each chromosome's span, closed at both ends, the later bin wins a tie (-1: no bin holds the marker)"""
     lab, k = [], 0
     for a, b, n in zip(st, sp, nblk):
         hb = numpy.linspace(pos[a], pos[b - 1], n + 1)
@@ -402,8 +428,26 @@ def _ref_labels(pos, st, sp, nblk):
         k += n
     return lab
 
+def _ref_spread(raw, st, sp, nblk):
+    """the property's definition of the block labels, written in closed form (not the loop of the implementation): start from
+    the equal-width labels; a label may exceed its predecessor's by at most one (running minimum of label - index), and a
+    marker's label is at least (last label of the chromosome) - (markers that follow), at most (first label) + (markers
+    that precede).  Identity whenever every equal-width bin of the chromosome holds a marker.  None: depends on an unlabelled marker."""
+    ref, k = [], 0
+    for a, b, n in zip(st, sp, nblk):
+        r = raw[a:b]; m = b - a
+        good = next((i for i, x in enumerate(r) if x < 0), m)     # labels before the first unlabelled marker are determined
+        if good:
+            v = numpy.array(r[:good]); ix = numpy.arange(good)
+            f = ix + numpy.minimum.accumulate(v - ix)
+            o = numpy.minimum(numpy.maximum(f, (k + n - m) + ix), k + ix)
+            ref += [int(x) for x in o]
+        ref += [None] * (m - good)
+        k += n
+    return ref
+
 def _empty_bin(case, out):
-    """the input pattern of the known finding: after binning, some label 0..nhaploblk-1 is carried by no marker"""
+    """clustered positions: after equal-width binning some label 0..nhaploblk-1 is carried by no marker (the repair pass acts)"""
     nb = out.get("nblk")
     if not isinstance(nb, list) or "nblk" in case: return False
     st, sp = _bounds(case["clen"])
@@ -418,7 +462,6 @@ def pred(case, out):
         return ["implementation raised %s: %s" % (out["exc"], out["msg"])]
     bad = []
     pos = case["pos"]; clen = case["clen"]; st, sp = _bounds(clen); nhap = case["nhap"]; nchr = len(clen); p = len(pos)
-    tag = "[empty-bin] " if _empty_bin(case, out) else ""
     nb = out["nblk"]
     valid_sorted = not case.get("unsorted")
     # --- apportionment
@@ -437,9 +480,11 @@ def pred(case, out):
     lab = None
     if use is not None:
         lab = out["hbin"]; b = out["bounds"]
-        ref = _ref_labels(pos, st, sp, use)
+        raw = _ref_labels(pos, st, sp, use)
+        ref = _ref_spread(raw, st, sp, use)
         if len(lab) != p: bad.append("one label per marker")
-        if lab != ref: bad.append("bin labels %r differ from the equal-width bins %r" % (lab, ref))
+        if valid_sorted and any(r is None or x != r for x, r in zip(lab, ref)):
+            bad.append("block labels %r differ from the equal-width bins %r with empty bins refilled %r" % (lab, raw, ref))
         if valid_sorted:
             if any(x < 0 for x in lab): bad.append("a marker is assigned to no block")
             if any(lab[i] > lab[i + 1] for i in range(p - 1)): bad.append("labels are not non-decreasing (blocks not contiguous/ordered)")
@@ -447,8 +492,13 @@ def pred(case, out):
             for a, e, n in zip(st, sp, use):
                 if any(not (k <= x < k + n) for x in lab[a:e]): bad.append("a block crosses a chromosome boundary")
                 k += n
-            if "nblk" not in case and sum(use) == nhap and len(set(lab)) != nhap:
-                bad.append(tag + "%d blocks found, %d requested" % (len(set(lab)), nhap))
+            if all(n <= l for n, l in zip(use, clen)) and sorted(set(lab)) != list(range(sum(use))):
+                bad.append("%d blocks found, %d requested" % (len(set(lab)), sum(use)))
+            k = 0
+            for a, e, n in zip(st, sp, use):                       # where no equal-width bin is empty the equal-width labels stand
+                if set(raw[a:e]) == set(range(k, k + n)) and lab[a:e] != raw[a:e]:
+                    bad.append("labels %r differ from the equal-width bins %r although no bin of the chromosome is empty" % (lab[a:e], raw[a:e]))
+                k += n
         # run-length boundaries of whatever labels were produced
         hs, he, hl = b
         if all(x >= 0 for x in lab):
@@ -474,6 +524,7 @@ def pred(case, out):
     if not (len(hm) == m and all(len(a) == n and all(len(b_) == nhap and all(len(c) == t for c in b_) for b_ in a) for a in hm)):
         bad.append("haplotype matrix shape is not (m,n,nhaploblk,t)"); return _dedup(bad)
     runs = list(zip(out["bounds"][0], out["bounds"][1]))
+    if len(runs) != nhap: bad.append("%d runs of markers for %d requested blocks" % (len(runs), nhap))
     total = lambda g, i: sum(Fraction(g[j]) * u[j][i] for j in range(p))
     for ph in range(m):
         for ind in range(n):
@@ -482,7 +533,7 @@ def pred(case, out):
                 vals = [hm[ph][ind][j][i] for j in range(nhap)]
                 for j in range(nhap):
                     if vals[j] is None:
-                        bad.append((tag if j >= len(runs) else "") + "block value never written (uninitialised memory) at block %d" % j)
+                        bad.append("block value never written (uninitialised memory) at block %d" % j)
                     elif j < len(runs):
                         a, e = runs[j]
                         if _F(vals[j]) != sum(Fraction(g[q]) * u[q][i] for q in range(a, e)): bad.append("block %d value is not genotype . effects over its markers" % j)
@@ -513,7 +564,7 @@ def pred(case, out):
             for i in range(t):
                 want = best_sum(par, i)
                 got = ohv[s_][i]
-                if got is None: bad.append(tag + "optimal haploid value is not finite"); continue
+                if got is None: bad.append("optimal haploid value is not finite"); continue
                 if want is None: continue
                 if _F(got) != want: bad.append("ohvmat[%d][%d] is not ploidy * sum over blocks of the best parental block value" % (s_, i))
                 # a doubled haploid recombining only at block boundaries cannot beat it
@@ -527,7 +578,7 @@ def pred(case, out):
         if out["nlatent"] != t: bad.append("nlatent")
         for x, lat in zip(case["x"], out["latent"]):
             for i in range(t):
-                if lat[i] is None: bad.append(tag + "latent value not finite"); continue
+                if lat[i] is None: bad.append("latent value not finite"); continue
                 if case["cls"] == "Subset":
                     rows = [ohv[k][i] for k in x]
                     if any(r is None for r in rows): continue
@@ -541,7 +592,7 @@ def pred(case, out):
         if out["ploidy"] != m or out["nlatent"] != t: bad.append("ploidy/nlatent")
         for x, lat in zip(case["x"], out["latent"]):
             for i in range(t):
-                if lat[i] is None: bad.append(tag + "latent value not finite"); continue
+                if lat[i] is None: bad.append("latent value not finite"); continue
                 if kind == "opv":
                     want = best_sum(x, i)
                     if want is not None and _F(lat[i]) != -want: bad.append("OPV latentfn is not -ploidy * sum over blocks of the best block among the selected")
@@ -567,16 +618,12 @@ def _dedup(bad):
     return seen[:8]
 
 def classify(case, out, clauses):
-    """known finding: an equal-width bin carries no marker => fewer blocks than requested, trailing blocks never written"""
-    import os
-    if not clauses or os.environ.get("C18_NOCLASSIFY"): return None   # (debug switch: show what the finding hides)
-    if all(c.startswith("[empty-bin] ") for c in clauses) and _empty_bin(case, out):
-        return FINDING
+    """no known finding is left for this property (C18-empty-bin is repaired: its witness is an ordinary case)"""
     return None
 
 def nontrivial(case, out):
     if "exc" in out or not isinstance(out.get("nblk"), list): return False
-    return len(case["pos"]) >= 3 and case["nhap"] >= 2 and not _empty_bin(case, out) and "hbin" in out and len(set(out["hbin"])) >= 2
+    return len(case["pos"]) >= 3 and case["nhap"] >= 2 and "hbin" in out and len(set(out["hbin"])) >= 2
 
 def describe(case, out):
     nb = out.get("nblk")
